@@ -20,12 +20,14 @@ CHECKS = {
     "C02": ("bounded liveness + completion oracle over the full configuration swarm and tape-decided pacing on a perfect link (random poll "
             "intervals; event-driven caller with a sender check interval below the round trip); a quarter of the "
             "runs on handlers that already completed a transfer (any mode / closure) and idled beyond every timer interval; in a sixth the sending "
-            "user submits a further put request while busy", "5 C02, 12", "quiescence oracle"),
+            "user submits a further put request while busy; epilogues: two back-to-back transfers by a user who submits before fetching, and 257 "
+            "consecutive small transfers with 1-byte sequence numbers (id re-use)", "5 C02, 12", "quiescence oracle"),
     "C03": ("bounded liveness after at most K link faults with limits > K, history shell (closed transactions acknowledged with status TERMINATED / "
             "UNDEFINED / UNRECOGNIZED); regular, random and ticked pacing (timer / PDU arrival races); no fault may be declared and no unsuccessful "
             "indication delivered; before the seeded search every K=1 schedule and (thorough: every, quick: every third) K=2 schedule on small files is executed (sweep)", "5 C03, 12", "bounded-liveness oracle; K<=2 schedule sweep + seeded search"),
     "C07": ("sender stream model judged on every emitted PDU in fault-free, bounded-fault and cancel populations; transient read errors of the "
-            "sender's filestore (the user keeps calling) in a quarter of the faulty runs; refused put requests for another file while busy", "5 C07, 12", "in-situ invariant vs SenderStream model + storage fault injection"),
+            "sender's filestore (the user keeps calling) in a quarter of the faulty runs; refused put requests for another file while busy; file sizes up "
+            "to 70 KB / 520 segments and a sparse source file just above 4 GiB (large-file PDU format)", "5 C07, 12", "in-situ invariant vs SenderStream model + storage fault injection"),
     "C09": ("independent reference checksums compared in situ on every EOF (incl. cancel-time prefixes and re-sent EOFs), completion decision and "
             "verify_checksum call; the sending user re-computes the sent prefix with a per-call chunk-length knob and a second checksum type on the same "
             "filestore object; stand-alone prefix x chunk enumeration is NOT reached (DESIGN 6)", "5 C09, 6, 12", "in-situ invariant vs reference checksums"),
@@ -63,7 +65,7 @@ CHECKS = {
     "C16": ("every tape of the fault-free / bounded-fault / cancel populations executed over NativeFilestore and over an in-memory "
             "filestore: host file-system entry points audited during every handler API call, traces of the two executions "
             "compared, host sandbox compared before / after the in-memory run", "5 C16", "syscall audit + twin-run differential"),
-    "C17": ("operation histories on the real NativeFilestore in a tmpfs sandbox judged after every operation against a dict-based "
+    "C17": ("operation histories on the real NativeFilestore in a tmpfs sandbox (payloads up to 6 KB, offsets up to 70 KB) judged after every operation against a dict-based "
             "file-system model (status code / data / exception, whole tree and contents); separate population with OSErrors "
             "injected at the k-th host access of an operation: never success, tree unchanged", "5 C17", "refinement vs FsModel + storage fault injection"),
     "C18": ("shadow IntervalSet judged on every LostSegmentTracker operation the destination handler issues under simulated arrival "
